@@ -16,7 +16,7 @@ DESCRIPTION = {
     "assumptions": ["the transport stays up for the whole history (transport loss is C06/C13)"],
 }
 
-BEHAVIOURS = ["value", "value", "callresult", "none", "unserializable", "oversized", "raise-app", "raise-defined", "raise-undefined", "raise-unserializable-args", "pending", "pending", "progress"]
+BEHAVIOURS = ["value", "value", "callresult", "none", "unserializable", "oversized", "raise-app", "raise-defined", "raise-undefined", "raise-unserializable-args", "pending", "pending", "progress", "shielded"]
 
 
 def plan(tier, seed):
@@ -44,7 +44,7 @@ def strategy(kind):
     kws = st.dictionaries(st.sampled_from(["a", "b", "x1"]), W.values, max_size=2)
     step = st.one_of(
         st.tuples(st.just("invoke"), st.integers(0, 2), vals, kws, st.booleans()),      # proc index, args, kwargs, receive_progress
-        st.tuples(st.just("invoke"), st.integers(0, 2), vals, kws, st.booleans()),
+        st.tuples(st.just("invoke"), st.integers(0, 2), vals, kws, st.booleans(), st.just(True)),   # INVOCATION and INTERRUPT arrive in one read
         st.tuples(st.just("resolve"), st.integers(0, 5), st.sampled_from(["ok", "fail", "fail-undefined", "unserializable"])),
         st.tuples(st.just("interrupt"), st.integers(0, 8), st.sampled_from(["pending", "done", "unknown"])),
         st.tuples(st.just("event")))
@@ -137,6 +137,24 @@ class World:
                 raise ApplicationError("com.myapp.error.app", object())
             f = world.txaio.create_future()
             world.pending.append({"proc": k, "fut": f, "inv": world.next_inv})
+            if beh == "shielded":
+                # an asynchronous endpoint that survives cancellation: it catches the cancel and still completes with a value
+                if world.tx.d.fw == "twisted":
+                    from twisted.internet.defer import CancelledError
+
+                    def recover(fail):
+                        fail.trap(CancelledError)
+                        return "recovered"
+                    f.addErrback(recover)
+                    return f
+                import asyncio
+
+                async def co():
+                    try:
+                        return await f
+                    except asyncio.CancelledError:
+                        return "recovered"
+                return co()
             return f
         return endpoint
 
@@ -173,7 +191,7 @@ class World:
         if self.tx.ep.drop_requested:
             raise Violation("C10|transport-dropped-by-session", "events %r" % (self.events[-3:],), self.c)
 
-    def do_invoke(self, k, args, kwargs, rp):
+    def do_invoke(self, k, args, kwargs, rp, with_interrupt=False):
         beh, details, nprog = self.c["procs"][k]
         self.next_inv += 1
         iid = self.next_inv
@@ -191,7 +209,10 @@ class World:
             msg.append(list(args))
         if kwargs:
             msg.append(dict(kwargs))
-        self.tx.send_raw(msg)
+        if with_interrupt:
+            self.tx.send_raw_many([msg, [69, iid, {}]])
+        else:
+            self.tx.send_raw(msg)
         self.collect()
         seen = self.calls[n_calls:]
         if len(seen) != 1 or seen[0][0] != k:
@@ -208,7 +229,23 @@ class World:
                 raise Violation("C10|call-details-differ", "caller=%r authid=%r" % (det.caller, det.caller_authid), self.c)
             if (det.progress is not None) != bool(rp):
                 raise Violation("C10|progress-callable-vs-receive_progress", "receive_progress=%r but details.progress=%r" % (rp, det.progress), self.c)
-        if beh == "pending":
+        if with_interrupt:
+            inv["state"] = "done"
+            for p in self.pending:
+                if p["inv"] == iid:
+                    p["done"] = True
+            if beh == "pending":
+                self.expect_terminal(inv, "interrupted")
+            elif beh == "shielded":
+                self.expect_terminal(inv, "shielded-interrupted")
+            else:
+                # the endpoint had returned before the INTERRUPT was looked at: its outcome is the reply; an ERROR that says "cancelled" is tolerated
+                t = inv["terminal"]
+                if len(t) == 1 and t[0][0] == 8 and (t[0][4] == "wamp.error.canceled" or "ancel" in repr(t[0][5:])) and beh not in ("raise-app", "raise-defined"):
+                    pass
+                else:
+                    self.expect_terminal(inv)
+        elif beh in ("pending", "shielded"):
             inv["state"] = "pending"
         else:
             inv["state"] = "done"
@@ -253,12 +290,26 @@ class World:
         elif beh == "interrupted":
             if is_yield:
                 raise Violation("C10|interrupted-invocation-yielded", repr(m[:4]), self.c)
+        elif beh == "shielded-interrupted":
+            # the endpoint refused to be cancelled and returned a value: either that value or a cancellation error is a proper single terminal reply
+            if is_yield and norm(m[3] if len(m) > 3 else []) != ["recovered"]:
+                raise Violation("C10|yield-content-differs|shielded", repr(m[:5]), self.c)
         # progress discipline
         nprog = len(inv["progress"])
         if nprog and not inv["rp"]:
             raise Violation("C10|progress-sent-although-not-requested", "invocation %d: %d progressive YIELDs" % (inv["id"], nprog), self.c)
         if inv["beh"] == "progress" and inv["rp"] and nprog != self.c["procs"][inv["proc"]][2]:
             raise Violation("C10|progress-count-differs", "%d vs %d" % (nprog, self.c["procs"][inv["proc"]][2]), self.c)
+
+    def safely(self, fn):
+        """complete an endpoint's pending result; if the library already cancelled it (which only the oracle may decide was wrong) go on to the checks"""
+        def run():
+            try:
+                fn()
+            except Exception as e:
+                if type(e).__name__ not in ("InvalidStateError", "AlreadyCalledError"):
+                    raise
+        self.tx.d.call(run)
 
     def do_resolve(self, k, how):
         from autobahn.wamp.exception import ApplicationError
@@ -272,13 +323,13 @@ class World:
             return
         tx = self.txaio
         if how == "ok":
-            self.tx.d.call(lambda: tx.resolve(p["fut"], "resolved"))
+            self.safely(lambda: tx.resolve(p["fut"], "resolved"))
         elif how == "unserializable":
-            self.tx.d.call(lambda: tx.resolve(p["fut"], {"o": object()}))
+            self.safely(lambda: tx.resolve(p["fut"], {"o": object()}))
         elif how == "fail":
-            self.tx.d.call(lambda: tx.reject(p["fut"], ApplicationError("com.myapp.error.app", "late")))
+            self.safely(lambda: tx.reject(p["fut"], ApplicationError("com.myapp.error.app", "late")))
         else:
-            self.tx.d.call(lambda: tx.reject(p["fut"], RuntimeError("late undefined")))
+            self.safely(lambda: tx.reject(p["fut"], RuntimeError("late undefined")))
         self.tx.d.settle()
         self.collect()
         inv["state"] = "done"
@@ -305,7 +356,7 @@ class World:
             for p in self.pending:
                 if p["inv"] == inv["id"]:
                     p["done"] = True
-            self.expect_terminal(inv, "interrupted")
+            self.expect_terminal(inv, "shielded-interrupted" if inv["beh"] == "shielded" else "interrupted")
         elif inv is not None and len(inv["terminal"]) != counts[inv["id"]]:
             raise Violation("C10|second-terminal-reply-after-interrupt", "invocation %d already completed, INTERRUPT produced another reply" % inv["id"], self.c)
 
@@ -319,7 +370,7 @@ class World:
                 p["done"] = True
                 inv = next(i for i in self.invs if i["id"] == p["inv"])
                 if inv["state"] == "pending":
-                    self.tx.d.call(lambda p=p: self.txaio.resolve(p["fut"], "resolved"))
+                    self.safely(lambda p=p: self.txaio.resolve(p["fut"], "resolved"))
                     self.tx.d.settle()
                     self.collect()
                     inv["state"] = "done"
@@ -355,8 +406,8 @@ def histories(col, seed, n, kind):
     def body(c):
         w = check_history(c)
         behs = set(i["beh"] for i in w.invs)
-        nt = len(w.invs) >= 2 or bool(behs & {"unserializable", "oversized", "raise-unserializable-args"}) or any(s[0] == "interrupt" and s[2] == "pending" for s in c["steps"])
-        col.case(nt, dig=c, cls=["tx:%s" % kind, "ser:" + c["ser"]] + ["beh:" + b for b in sorted(behs)] + (["limit:%s" % (w.limit,)] if w.limit else []) +
+        nt = len(w.invs) >= 2 or bool(behs & {"unserializable", "oversized", "raise-unserializable-args"}) or any(s[0] == "interrupt" and s[2] == "pending" for s in c["steps"]) or any(s[0] == "invoke" and len(s) > 5 for s in c["steps"])
+        col.case(nt, dig=c, cls=["tx:%s" % kind, "ser:" + c["ser"]] + ["beh:" + b for b in sorted(behs)] + (["invocation+interrupt-in-one-read"] if any(s[0] == "invoke" and len(s) > 5 for s in c["steps"]) else []) + (["limit:%s" % (w.limit,)] if w.limit else []) +
                  (["concurrent>=2"] if sum(1 for i in w.invs if i["beh"] == "pending") >= 2 else []),
                  sample={"procs": c["procs"], "steps": c["steps"], "ser": c["ser"], "limit": w.limit})
     run_hypothesis(col, "hist", strategy(kind), body, n, seed)
